@@ -28,6 +28,7 @@ theorem C14_elementLiv : Exact .elementLiv := exact_elementLiv
 theorem C14_elementLic : Exact .elementLic := exact_elementLic
 theorem C14_exactlyEq : Exact .exactlyEq := exact_exactlyEq
 theorem C14_exactlyTrue : Exact .exactlyTrue := exact_exactlyTrue
+theorem C14_lexLeq : Exact .lexLeq := exact_lexLeq
 theorem C14_maxEq : Exact .maxEq := exact_maxEq
 theorem C14_maxLeq : Exact .maxLeq := exact_maxLeq
 theorem C14_minEq : Exact .minEq := exact_minEq
@@ -36,7 +37,7 @@ theorem C14_relation : Exact .relation := exact_relation
 
 /-- algorithms for which `Exact` is stated (Spec.lean) but not proved here: validated by the
     correspondence and the brute-force oracle only -/
-def C14_unproved : List Alg := [.alldifferent, .gcc, .lexLeq]
+def C14_unproved : List Alg := [.alldifferent, .gcc]
 
 /-- affine_eq returns exactly the box obtained by ONE round of interval reasoning on the input bounds
     (it is documented as not bound-consistent; `not_exact_affineEq` shows it indeed is not) -/
